@@ -30,8 +30,13 @@ Ran(f) == {f[x] : x \in DOMAIN f}
 Without(f, x) == [y \in (DOMAIN f) \ {x} |-> f[y]]
 
 \* availability order of the item ids offered after event ev, ledger Lg
+\* (timed kinds: WHICH items are available is observed (ready); their ORDER is the order in which the ledger saw them
+\*  become available -- first time offered, then put order -- not the order of the implementation's list)
+AvRec(Lg, id) == CHOOSE x \in Range(Lg.ins) : x.id = id
+Before(Lg, a, b) == LET x == AvRec(Lg, a) y == AvRec(Lg, b) IN x.av < y.av \/ (x.av = y.av /\ a < b)
+SortByAvail(Lg, S) == [k \in 1..Cardinality(S) |-> CHOOSE a \in S : Cardinality({b \in S : Before(Lg, b, a)}) = k - 1]
 AvailSeq(Lg, ev) ==
-  IF Cfg(tid).kind \in {"buffer", "fleet"} THEN ev.ready
+  IF Cfg(tid).kind \in {"buffer", "fleet", "conveyor", "slotted"} THEN SortByAvail(Lg, Range(ev.ready) \cap {Lg.ins[i].id : i \in 1..Len(Lg.ins)})
   ELSE [i \in 1..Len(Lg.ins) |-> Lg.ins[i].id]
 ItemRec(Lg, id) == CHOOSE x \in Range(Lg.ins) : x.id = id
 PosIn(q, id) == CHOOSE i \in 1..Len(q) : q[i] = id
